@@ -31,7 +31,7 @@ fn queries(tier: Tier) -> Vec<String> {
     }
     for q in [
         "mercury mass", "earth diameter / 2", "population finland", "earth mass / mercury mass", "round(population finland)", "mercury diameter to mi", "3dl to m^3", "1000Gbtu to MWh", "3N / 10kg",
-        "1 m + 1 s", "1 / 0", "foo(1)", "1 m + 1 s (5)", "(1 / 0) (2 m)", "(2) (1 / 0) (3 km)", "(1) (2) (3)", "1 decade (1 / 0) 2 decades", "1 m to s (7)", ")", "1 +", "", "   ",
+        "2.0", "2.0 m", "1.50 km", "0.250", "10e-1 s", "1 m + 1 s", "1 / 0", "foo(1)", "1 m + 1 s (5)", "(1 / 0) (2 m)", "(2) (1 / 0) (3 km)", "(1) (2) (3)", "1 decade (1 / 0) 2 decades", "1 m to s (7)", ")", "1 +", "", "   ",
     ] {
         v.push(q.to_string());
     }
@@ -220,10 +220,13 @@ fn expected(db: &anything::Db, q: &str, exact: bool) -> Option<(Vec<Item>, Vec<O
             Ok(n) => {
                 let mut s = String::new();
                 if exact {
-                    s.push_str(&n.value.numer().to_string());
-                    if !n.value.denom().is_one() {
+                    // "the reduced numerator ... denominator": reduced here, by the harness's own
+                    // fraction (the library's value may or may not be stored in lowest terms)
+                    let r = crate::obs::rat_of(&n.value);
+                    s.push_str(&r.numer().to_string());
+                    if !r.denom().is_one() {
                         s.push('/');
-                        s.push_str(&n.value.denom().to_string());
+                        s.push_str(&r.denom().to_string());
                     }
                 } else {
                     let mut spec = DisplaySpec::default();
